@@ -4,3 +4,4 @@ histories in which the description is edited between runs of the tool (Props/C08
 -/
 import LLBuild.Props.C08
 import LLBuild.Props.C08Gen
+import LLBuild.Props.C08X
